@@ -159,6 +159,8 @@ func classify(ref *funcRef) string {
 		return "fedresolvername"
 	case name == "isMulti":
 		return "fedismulti"
+	case name == "representationField":
+		return "fedrepfield"
 	}
 	if sig.Recv() != nil && strings.HasSuffix(typeStr(sig.Recv().Type()), "executableSchema") && name == "Schema" {
 		return "schemagetter"
@@ -268,6 +270,8 @@ func mergeContracts(base *Contract, extra []*Contract) *Contract {
 			c.Ghosts = append(append([]AtClause{}, c.Ghosts...), src.Ghosts...)
 			c.Callsites = append(append([]CallsiteClause{}, c.Callsites...), src.Callsites...)
 			c.Uses = append(append([]string{}, c.Uses...), src.Uses...)
+			c.InLoop = append(append([]*SExpr{}, c.InLoop...), src.InLoop...)
+			c.InLoopSrc = append(append([]string{}, c.InLoopSrc...), src.InLoopSrc...)
 			c.NoPanic = c.NoPanic || src.NoPanic
 			c.NoEscape = c.NoEscape || src.NoEscape
 			c.Safe = c.Safe || src.Safe
